@@ -145,9 +145,30 @@ def dim_type(s):
     return TYPENAME[t]
 
 
+def all_ids(s, acc):
+    if isinstance(s, dict):
+        if "id" in s and "k" in s:
+            acc.append(s["id"])
+        for v in s.values():
+            all_ids(v, acc)
+    elif isinstance(s, list):
+        for v in s:
+            all_ids(v, acc)
+    return acc
+
+
 def stmt(o, s, ind):
     k = s["k"]
     sid = s.get("id")
+    if s.get("colon") and k in ("for", "while", "do"):
+        # the whole loop on one line, statements separated by colons
+        tmp = Out()
+        stmt(tmp, {kk: vv for kk, vv in s.items() if kk != "colon"}, 0)
+        row = o.emit(": ".join(l.strip() for l in tmp.lines), sid, ind)
+        for i in all_ids(s, []):
+            o.rows[i] = row
+        o.endrows[sid] = row
+        return
     if k == "let":
         o.emit(expr(s["lhs"]) + " = " + expr(s["e"]), sid, ind)
     elif k == "print":
